@@ -144,6 +144,9 @@ def table : List Entry :=
     { kind := .font, name := "guidelines=reordered", methods := ["guidelines="], targets := fontGuides },
     { kind := .font, name := "removeGuideline", methods := ["removeGuideline"], targets := fontGuides, effs := [.removeNewest .guideline] },
     { kind := .font, name := "clearGuidelines", methods := ["clearGuidelines"], targets := fontGuides, effs := [.removeAll .guideline] },
+    -- a bulk assignment rejected at its second item (duplicate identifier): the old objects are gone, the first new one is in
+    { kind := .font, name := "guidelines=[rejected at the second item]", methods := ["guidelines="], targets := fontGuides,
+      effs := [.removeAll .guideline, .add .guideline true []] },
     -- LayerSet
     setter .layerSet "layerOrder",
     { kind := .layerSet, name := "newLayer", methods := ["newLayer"], effs := [.add .layer true [(.lib, false)]] },
@@ -172,7 +175,11 @@ def table : List Entry :=
     { kind := .glyph, name := "clearImage", methods := ["clearImage"], targets := [.child .image, .self] } ]
   ++ glyphList .contour "Contour" "Contours" ++ glyphList .component "Component" "Components"
   ++ glyphList .anchor "Anchor" "Anchors" ++ glyphList .guideline "Guideline" "Guidelines" ++
-  [ { kind := .glyph, name := "move", methods := ["move"], targets := [.child .contour, .child .component, .child .anchor] },
+  [ { kind := .glyph, name := "anchors=[rejected at the second item]", methods := ["anchors="],
+      effs := [.removeAll .anchor, .add .anchor true []] },
+    { kind := .glyph, name := "guidelines=[rejected at the second item]", methods := ["guidelines="],
+      effs := [.removeAll .guideline, .add .guideline true []] },
+    { kind := .glyph, name := "move", methods := ["move"], targets := [.child .contour, .child .component, .child .anchor] },
     { kind := .glyph, name := "clear", methods := ["clear"], targets := [.child .image, .self],
       effs := [.removeAll .contour, .removeAll .component, .removeAll .anchor, .removeAll .guideline] },
     { setter .glyph "name" with relay := .viaSelfAndParent },
